@@ -299,6 +299,9 @@ class ApplyLayoutCastArithConstant(RewritePattern):
         # check if it is used in a terminator operation
         if any(use.operation.has_trait(IsTerminator) for use in const_source.result.uses):
             return
+        # constant op may only be used by cast ops
+        if not all(isinstance(use.operation, LayoutCast | MemorySpaceCastOp) for use in const_source.result.uses):
+            return
         # apply transformation
         assert isinstance(const_source.value, DenseIntOrFPElementsAttr)
         new_constant = transform_constant(const_source.value, op.dest.type.layout)
@@ -368,6 +371,9 @@ class ApplyLayoutCastMemrefGlobal(RewritePattern):
             return
         # check if it is used in a terminator operation
         if any(use.operation.has_trait(IsTerminator) for use in const_source.memref.uses):
+            return
+        # global op may only be used by cast ops
+        if not all(isinstance(use.operation, LayoutCast | MemorySpaceCastOp) for use in const_source.memref.uses):
             return
         global_op = SymbolTable.lookup_symbol(op, const_source.name_)
         if not isinstance(global_op, memref.GlobalOp):
